@@ -118,9 +118,16 @@ def leaf_family(ctx, n, spread=6, pinv=0.25, tries=200):
 
 def scaled_family(ctx, n, scales=(F(1, 50000), F(1, 20000), F(1, 5000), F(1, 200), F(1000)), pinv=0.25, tries=300, force=None, crossing=False):
     """n integer-coordinate polygons jointly in general position, all multiplied by one exact scale factor (drawings in other
-    units).  Integer coordinates keep every crossing point's denominator below 10^9 after scaling, so results stay exact."""
+    units).  Integer coordinates keep every crossing point's denominator below 10^9 after scaling, so results stay exact.
+
+    Fragile territory (finding K8): the library decides "point on curve" with an ABSOLUTE 1e-6, so a drawing whose features come closer than that -
+    at ITS unit - is decided differently from the same drawing at unit 1.  Random drawings keep 20x that distance at their unit: the separation is
+    computed once at unit 1 (it scales linearly), up to 24 candidate drawings are tried for the wanted unit, and if none is roomy enough the roomiest
+    one is used at the smallest unit of the list that it supports.  The catalogued near-tolerance drawing is a deterministic corpus entry of C01."""
     rng = ctx.rng
     k = rng.choice(scales) if force is None else force
+    best = None
+    cands = 0
     for _ in range(tries):
         vss = [gen.star_polygon(rng, rng.randint(3, 7), rng.choice([12, 20, 30]), rng.randint(-15, 15), rng.randint(-15, 15), den=1) for _ in range(n)]
         if any(len(set(vs)) != len(vs) for vs in vss):
@@ -133,18 +140,24 @@ def scaled_family(ctx, n, scales=(F(1, 50000), F(1, 20000), F(1, 5000), F(1, 200
                 vs = vs[::-1]
             if rng.random() < pinv:
                 vs = vs[::-1]
-            out.append([(x * k, y * k) for x, y in vs])
-        # fragile territory (finding K8): the library decides "point on curve" with an ABSOLUTE 1e-6, so a drawing whose features come closer than
-        # that - at ITS unit - is decided differently from the same drawing at unit 1.  Random drawings keep 20x that distance; the catalogued
-        # near-tolerance drawing is a deterministic corpus entry of C01.
+            out.append([(F(x), F(y)) for x, y in vs])
         if crossing and not gen.crosses(out[0], out[1]):
             continue
-        if gen.separation(out) < 2e-5:
-            ctx.count("scaled-family:rejected-near-tolerance")
-            continue
-        ctx.count("scale:" + str(k))
-        return out, k
-    raise RuntimeError("could not generate a scaled general-position family")
+        sep1 = gen.separation(out)
+        cands += 1
+        if best is None or sep1 > best[0]:
+            best = (sep1, out)
+        if sep1 * float(k) >= 2e-5 or cands >= 24:
+            break
+    if best is None:
+        raise RuntimeError("could not generate a scaled general-position family")
+    sep1, out = best
+    if sep1 * float(k) < 2e-5:
+        ctx.count("scaled-family:unit-raised-near-tolerance")
+        allowed = sorted(u for u in set(scales) | {F(1, 200), F(1)} if sep1 * float(u) >= 2e-5)
+        k = allowed[0] if allowed else F(1000)
+    ctx.count("scale:" + str(k))
+    return [[(x * k, y * k) for x, y in vs] for vs in out], k
 
 
 def shape_tokens_of_vertices(vs):
